@@ -9,7 +9,6 @@ package main
 // M3d.C15.off_polygons_tiled / off_face_tiling_sound); nothing is decided here.
 
 import (
-	"bytes"
 	"fmt"
 	"math"
 	"math/big"
@@ -521,9 +520,10 @@ func caseOFFPoly(c *hlib.Ctx, i int) {
 	}
 
 	tb := codec.NewTables()
+	dl := pickDelivery(c, "offp")
 	var op strings.Builder
 	var text strings.Builder
-	fmt.Fprintf(&op, "c15 offp %d", len(table))
+	fmt.Fprintf(&op, "c15 offp %s %d", dl.tag(), len(table))
 	for _, v := range table {
 		for k := 0; k < 3; k++ {
 			tb.AddF64(v[k])
@@ -553,7 +553,7 @@ func caseOFFPoly(c *hlib.Ctx, i int) {
 	data := []byte(text.String())
 	var tris []*model3d.Triangle
 	res := guardT(func() string {
-		ts, err := model3d.ReadOFF(bytes.NewReader(data))
+		ts, err := model3d.ReadOFF(dl.reader(data))
 		if err != nil {
 			return "error"
 		}
